@@ -654,6 +654,11 @@ class MailboxWorld:
                     cl.ev("message", v)
             d.addCallbacks(got, lambda f: entry.__setitem__(2, ("err", f.value)))
 
+    def _do_AppGetBurst(self, act):
+        """several get_*() calls issued in one reactor turn: nothing - no eventual-queue turn either - runs between them"""
+        for _ in range(act["n"]):
+            self._do_AppGet(act)
+
     def _do_AppDerive(self, act):
         cl = self.clients[act["c"]]
         r = cl.api("derive_key", cl.w.derive_key, act["purpose"], act["n"])
